@@ -105,6 +105,7 @@ type Exec struct {
 	ufunUsed  map[string]bool
 	ufunDecl  []string
 	lemmasUsed map[string]bool
+	nReturns   int
 	recActive map[*Pred]bool
 	recInst   map[string]*recInstance
 	readLog   map[string]Term
@@ -788,6 +789,9 @@ func (ex *Exec) execFn(fr *Frame, pc Term, st State) (Term, State, []Term) {
 				rs = append(rs, ex.val(fr, r))
 			}
 			rets = append(rets, retRec{pc: bpc, st: bst, results: rs})
+			if isRoot {
+				ex.ensuresAt(fr, bpc, bst, rs, t.Pos())
+			}
 		case *ssa.Panic:
 			// handled in execBlock
 		}
